@@ -8,6 +8,7 @@ On top of the environment the client keeps its own hashable typestate, updated b
 CFG element in evaluation order.
 
     walk(f, init_ts, on_node)        on_node(node, ts, env) -> new ts   (may call report through a closure)
+                                     on_edge(cond, branch, ts, env) -> new ts, called for each edge of a two-way branch that is taken
 
 The number of distinct (block, environment, typestate) triples is bounded by max_states; exceeding it raises Budget so
 that the caller can report `analysis incomplete` instead of a verdict.
@@ -191,7 +192,7 @@ def apply_env(f, node, env, tracked):
             env.pop(node["d"], None)
 
 
-def walk(f, init_ts, on_node, max_states=40000, tracked=None):
+def walk(f, init_ts, on_node, max_states=40000, tracked=None, on_edge=None):
     cfg = f.cfg
     tracked = flags_of(f) if tracked is None else tracked
     seen = set()
@@ -233,7 +234,8 @@ def walk(f, init_ts, on_node, max_states=40000, tracked=None):
                     im = implied(cn, br, tracked)
                     if im is not None and im[0] not in e2:
                         e2[im[0]] = im[1]
-                work.append((s, tuple(sorted(e2.items(), key=lambda kv: kv[0])), ts))
+                ts2 = on_edge(cn, br, ts, e2) if on_edge is not None else ts
+                work.append((s, tuple(sorted(e2.items(), key=lambda kv: kv[0])), ts2))
         else:
             for s in succ:
                 work.append((s, tuple(sorted(env.items(), key=lambda kv: kv[0])), ts))
